@@ -48,6 +48,12 @@ func NewWorker(concurrency int) api.WorkTriggerer {
 	return func(ctx context.Context, _ *ui.Output, workers *workers.PoolManager, _ options.RunOptions) {
 		pool := workers.NewContinuousPool(concurrency)
 		pool.Start(ctx)
-		<-workers.WaitForCompletion()
+
+		// return when triggering has to stop as well, so that the caller's bounded
+		// wait for in-flight iterations applies to iterations that never finish
+		select {
+		case <-workers.WaitForCompletion():
+		case <-ctx.Done():
+		}
 	}
 }
